@@ -1,5 +1,6 @@
 (* C14 - property theorems. *)
-From HT Require Import Common.Bytes C14.Model C14.ProofsSum C14.Proofs.
+From HT Require Import Common.Bytes C14.Model C14.ProofsSum C14.Proofs C14.ProofsRsp.
+From HT Require C14.Check C14.CheckRsp.
 Open Scope Z_scope.
 
 (* every emitted frame carries a correct IPv4 header checksum and TCP checksum *)
@@ -136,6 +137,100 @@ Example C14_wraparound_example :
   map o_ack (snd (run_conn c (stream_segs tmpl 4294967290 [[1;2;3]%N; [4;5;6;7]%N]))) = [4294967293; 1].
 Proof. vm_compute. reflexivity. Qed.
 
+
+(* ---- segments that carry payload of the listener's own (decoded ports whose decoder writes) ---- *)
+
+(* the checksum routine's contract for EVERY segment: any length from 18 bytes on (a TCP segment has
+   at least 20), odd or even - an odd last byte is the high byte of a word padded virtually -, any
+   addresses, any byte values, no bound on the sum: storing the complement of the ones'-complement
+   sum over pseudo header + segment (checksum field skipped) makes the whole verify to 0xffff *)
+Theorem C14_any_segment_checksum_verifies : forall src dst data,
+  18 <= zlen data ->
+  ocfold (segment_verify_sum src dst (fill_checksum (occk (segment_sum0 src dst data)) data)) = 65535.
+Proof. exact any_segment_verifies. Qed.
+
+(* ... and nothing but bytes 16..17 of the segment changes, its length included *)
+Theorem C14_checksum_store_only_field : forall ck data,
+  18 <= zlen data ->
+  firstn 16 (fill_checksum ck data) = firstn 16 data /\
+  skipn 18 (fill_checksum ck data) = skipn 18 data /\
+  firstn 2 (skipn 16 (fill_checksum ck data)) = be_enc 2 ck.
+Proof. exact fill_only_field. Qed.
+
+(* the code's uint32 accumulator and fold loops compute that ones'-complement sum on the whole
+   uint32 range ... *)
+Theorem C14_fold_is_ones_complement : forall s, 0 <= s < 4294967296 -> fold3 s = ocfold s.
+Proof. exact fold3_ocfold. Qed.
+
+(* ... so updateTCPChecksum stores the right checksum into every segment an IPv4 packet can
+   carry (20-byte IPv4 header + at most 65515 bytes), of odd and even length alike *)
+Theorem C14_update_checksum_verifies : forall src dst data,
+  wf_addr src -> wf_addr dst -> wf_bytes data = true -> 18 <= zlen data <= 65515 ->
+  fold3 (segment_verify_sum src dst (update_tcp_checksum src dst data)) = 65535.
+Proof. exact update_checksum_verifies. Qed.
+
+Theorem C14_update_checksum_is_ones_complement : forall src dst data,
+  wf_addr src -> wf_addr dst -> wf_bytes data = true -> 18 <= zlen data <= 65515 ->
+  update_tcp_checksum src dst data = fill_checksum (occk (segment_sum0 src dst data)) data.
+Proof. exact update_checksum_is_ones_complement. Qed.
+
+(* every emitted segment of the model is header ++ payload run through that routine *)
+Theorem C14_emitted_segment_uses_update_checksum : forall o,
+  tcp_bytes o = update_tcp_checksum (o_sip o) (o_dip o) (tcp_header_nock o ++ o_payload o).
+Proof. exact tcp_bytes_is_update. Qed.
+
+(* the listener's writes (Socket.Write -> State.write), for every list of writes: the i-th data
+   segment carries the i-th chunk, PSH|ACK, sequence number = SND.NXT + bytes already sent
+   (mod 2^32), acknowledges RCV.NXT, is addressed back; nothing else of the State moves *)
+Theorem C14_writes_count_bytes_sent : forall ws c,
+  0 <= c_nxt c < 4294967296 ->
+  same_peer c (snd (conn_writes c ws)) /\
+  c_nxt (snd (conn_writes c ws)) = u32 (c_nxt c + total_len ws) /\
+  length (fst (conn_writes c ws)) = length ws /\
+  (forall i o, nth_error (fst (conn_writes c ws)) i = Some o ->
+     exists w, nth_error ws i = Some w /\ data_out c (u32 (c_nxt c + total_len (firstn i ws))) w o).
+Proof. exact conn_writes_spec. Qed.
+
+(* a decoder that writes and closes: its data segments, then one FIN|ACK right behind the last
+   byte; FIN-WAIT-1 *)
+Theorem C14_decoder_answer_then_fin : forall t k ws c,
+  find_key t k = Some c -> 0 <= c_nxt c < 4294967296 ->
+  exists t' os o c',
+    decoder_step t k ws = Some (t', os ++ [o]) /\ t' = tput t c' /\
+    os = fst (conn_writes (set_ring c []) ws) /\
+    o_flags o = FIN + ACK /\ o_payload o = [] /\ o_seq o = u32 (c_nxt c + total_len ws) /\ o_ack o = c_rcv c /\
+    o_sip o = c_dip c /\ o_dip o = c_sip c /\ o_sport o = c_dport c /\ o_dport o = c_sport c /\
+    c_st c' = FinWait1 /\ c_nxt c' = u32 (c_nxt c + total_len ws + 1) /\ c_rcv c' = c_rcv c /\ c_key c' = c_key c.
+Proof. exact decoder_step_frames. Qed.
+
+(* non-vacuity: the 69-byte (odd) segment that answers an HTTP request on port 80 near the
+   sequence wrap, and a 70-byte (even) one; both verify, the wire frame passes the observation
+   check - and the same frame with the checksum field left at zero is flagged *)
+Definition ex_reply : bytes := [72;84;84;80;47;48;46;48;32;48;48;48;32;115;116;97;116;117;115;32;99;111;100;101;32;48;13;10;67;111;110;116;101;110;116;45;76;101;110;103;116;104;58;32;48;13;10;13;10]%N.
+Definition ex_out (p : bytes) : out :=
+  mkOut [127;0;0;1]%N [10;9;0;9]%N 80 42001 4294967290 0 (PSH + ACK) 7 p.
+Definition ex_seg : seg := mkSeg [10;9;0;9]%N [127;0;0;1]%N 42001 80 4294967264 4294967290 (PSH + ACK) (repeat 71%N 32).
+Definition ex_frame (p : bytes) : bytes := CheckRsp.wire [0;0;0;0;0;0]%N (ex_out p).
+Definition ex_zeroed (fr : bytes) : bytes := firstn 50 fr ++ [0;0]%N ++ skipn 52 fr.
+
+Example C14_reply_segment_example :
+  zlen (tcp_bytes (ex_out ex_reply)) = 69 /\ zlen (tcp_bytes (ex_out (ex_reply ++ [33]%N))) = 70 /\
+  fold3 (segment_verify_sum [127;0;0;1]%N [10;9;0;9]%N (tcp_bytes (ex_out ex_reply))) = 65535 /\
+  fold3 (segment_verify_sum [127;0;0;1]%N [10;9;0;9]%N (tcp_bytes (ex_out (ex_reply ++ [33]%N)))) = 65535 /\
+  fst (CheckRsp.frame_sig ex_seg (CheckRsp.mkJ (Some 4294967290) 0 []) (ex_frame ex_reply)) = 0%N /\
+  fst (CheckRsp.frame_sig ex_seg (CheckRsp.mkJ (Some 4294967290) 0 []) (ex_zeroed (ex_frame ex_reply))) = CheckRsp.SIG_TCPSUM /\
+  fst (CheckRsp.frame_sig ex_seg (CheckRsp.mkJ (Some 4294967290) 0 []) (ex_zeroed (ex_frame (ex_reply ++ [33]%N)))) = CheckRsp.SIG_TCPSUM.
+Proof. vm_compute. repeat split; reflexivity. Qed.
+
+(* non-vacuity of the contract's hypotheses and of the sum being unbounded: a segment of 131101
+   bytes (odd), whose sum no uint32 could hold, still verifies *)
+Definition ex_big : bytes := repeat 255%N (N.to_nat 131101).
+Definition ex_ones : ip := [255;255;255;255]%N.
+Example C14_any_length_example :
+  18 <= zlen ex_big /\ 4294967296 < segment_sum0 ex_ones ex_ones ex_big /\
+  ocfold (segment_verify_sum ex_ones ex_ones (fill_checksum (occk (segment_sum0 ex_ones ex_ones ex_big)) ex_big)) = 65535.
+Proof. split; [vm_compute; discriminate|split; vm_compute; reflexivity]. Qed.
+
 Print Assumptions C14_ip_checksum_verifies.
 Print Assumptions C14_tcp_checksum_verifies.
 Print Assumptions C14_checksum_algebra.
@@ -153,3 +248,11 @@ Print Assumptions C14_output_independent_of_table.
 Print Assumptions C14_lookup_exact.
 Print Assumptions C14_get_confusable_refuted.
 Print Assumptions C14_fin_acknowledged_while_client_open.
+Print Assumptions C14_any_segment_checksum_verifies.
+Print Assumptions C14_checksum_store_only_field.
+Print Assumptions C14_fold_is_ones_complement.
+Print Assumptions C14_update_checksum_verifies.
+Print Assumptions C14_update_checksum_is_ones_complement.
+Print Assumptions C14_emitted_segment_uses_update_checksum.
+Print Assumptions C14_writes_count_bytes_sent.
+Print Assumptions C14_decoder_answer_then_fin.
